@@ -281,6 +281,185 @@ def check_case(case, R):
     R.outcome(p, tuple(round(c, 2) for c in xyz2p[0] + xyz2p[-1]), tuple(p2), len(got))
 
 
+# ------------------------------------------------------------------ measured first, then moved / scaled / copied
+
+
+DERIVE_HOWS = ["copy+edit:scale", "copy+edit:move", "inplace:scale", "inplace:move", "lib:Scale", "lib:Translate", "lib:RotateZ",
+               "lib:Scale.transform", "copy+handle:scale"]
+
+
+def _derive(t, how, s, off):
+    """A tree obtained FROM an already measured tree; returns the derived tree (for 'inplace' the same object)."""
+    from swcgeom.transforms import RotateZ, Scale, Translate
+
+    def edit(x):
+        if how.endswith("scale"):
+            for k in ("x", "y", "z", "r"):
+                a = x.get_ndata(k)
+                a *= np.float32(s)
+        else:
+            for k, d in zip(("x", "y", "z"), off):
+                a = x.get_ndata(k)
+                a += np.float32(d)
+
+    if how.startswith("copy+edit"):
+        c = t.copy()
+        edit(c)
+        return c
+    if how.startswith("inplace"):
+        edit(t)
+        return t
+    if how == "copy+handle:scale":
+        c = t.copy()
+        for i in range(len(c)):
+            nd = c.node(i)
+            nd.x, nd.y, nd.z, nd.r = float(nd.x) * s, float(nd.y) * s, float(nd.z) * s, float(nd.r) * s
+        return c
+    if how == "lib:Scale":
+        return Scale(s, s, s, center="origin")(t)
+    if how == "lib:Scale.transform":
+        return Scale.transform(t, s, s, s, center="origin")
+    if how == "lib:Translate":
+        return Translate(*off)(t)
+    if how == "lib:RotateZ":
+        return RotateZ(2.1, center="origin")(t)
+    raise ValueError(how)
+
+
+def _same(a, b):
+    if len(a) != len(b):
+        return False
+    for u, v in zip(a, b):
+        if not (u == v or (math.isfinite(u) and math.isfinite(v) and abs(u - v) <= 1e-9 * max(1.0, abs(u), abs(v))) or (u != u and v != v)):
+            return False
+    return True
+
+
+def check_derived(case, R):
+    """Differential history check: every observable is evaluated on a tree (so whatever the library remembers is warm), the tree
+    is then scaled / moved / copied (in place, on a copy, by the library's own transforms) and every observable of the DERIVED
+    tree must equal that of a freshly built tree with bit-identical content (same float32 columns)."""
+    case = jsonable(case)
+    p = [int(v) for v in case[0]]
+    bank_k, variant = int(case[1][0]), int(case[1][1])
+    how, s = case[2], float(case[3])
+    n = len(p)
+    R.state(p, case[1:])
+    xyz, rad = build.generic_geometry(n, bank_k)
+    xyz = [tuple(c * SHRINK[variant] for c in q) for q in xyz]
+    radii = RF.sholl_midgap_radii(p, xyz)
+    chain = not ref.furcations(p)
+    t = build.make_tree(p, xyz=xyz, r=rad)
+    ident = list(range(n))
+    seed = dg("C11-derived", case) % (2 ** 32)
+    np.random.seed(seed)
+    warm = observe(_Quiet(), t, ident, radii, p, chain)  # measured first
+    ok, t2 = R.impl("derive:" + how, _derive, t, how, s, OFFSETS[1])
+    if not ok:
+        return
+    sc = s if how.endswith("scale") or "Scale" in how else 1.0
+    radii2 = [sc * r for r in radii]
+    np.random.seed(seed)
+    got = observe(R, t2, ident, radii2, p, chain)
+    cols = {k: np.array(t2.get_ndata(k), copy=True) for k in ("x", "y", "z", "r")}
+    fresh = build.make_tree(p, xyz=list(zip(cols["x"].tolist(), cols["y"].tolist(), cols["z"].tolist())), r=cols["r"].tolist())
+    assert all(np.array_equal(fresh.get_ndata(k), cols[k]) for k in cols)
+    np.random.seed(seed)
+    q = _Quiet()
+    want = observe(q, fresh, ident, radii2, p, chain)
+    ctx = f"p={p} bank={bank_k} geometry={variant} derived-by={how} s={s}"
+    for name, (dim, kind, wv) in want.items():
+        if name not in got:
+            continue
+        gv = got[name][2]
+        if kind in ("multiset",):
+            gv, wv = sorted(gv), sorted(wv)
+        R.check(_same(gv, wv), "derived-tree-differs:" + name.split("[")[0],
+                lambda: f"{ctx}: {name} on the derived tree {gv}, on a freshly built tree with identical columns {wv} (before deriving: {warm.get(name, (0, 0, None))[2]})",
+                f"derived-tree-differs:{name.split('[')[0]}:{how.split(':')[0]}")
+    for name in got:
+        R.check(name in want, "derived-tree-differs:raises-only-on-fresh", lambda: f"{ctx}: {name}: {q.errors[:2]}", "derived-tree-differs:fresh-raises")
+    R.outcome(p, how, s, len(got))
+
+
+# ------------------------------------------------------------------ exact (dyadic) translations far from the origin
+
+DYADIC_SHIFTS = list(range(4, 21))  # translation by +-2^k on every axis, every k (a tolerance that grows with |coordinate| bites somewhere)
+DYADIC_GEOM = [(0.125, 1.0, 20), (1 / 64, 0.125, 17)]  # (grain, shrink of the bank, largest k with 2^k + grain exact in float32)
+DYADIC_SIGNS = [(1, 1, 1), (-1, 1, -1)]
+
+
+def _dyadic_geometry(n, bank_k, grain, shrink):
+    """Bank geometry (optionally shrunk: finely sampled neurite) snapped to multiples of `grain` (a power of two): translations
+    by 2^k are then exact in float32."""
+    xyz, rad = build.generic_geometry(n, bank_k)
+    q = lambda v: round(v / grain) * grain  # noqa: E731
+    return [tuple(q(c * shrink) for c in pt) for pt in xyz], [max(grain, q(r * shrink)) for r in rad]
+
+
+def check_dyadic(case, R):
+    """Translation that is EXACT in float32 (dyadic coordinates, power-of-two offset): the translated tree has bit-identical
+    segment vectors, so every morphometric must agree with the untranslated one up to the rounding of the evaluation itself,
+    however far from the origin the neuron sits."""
+    case = jsonable(case)
+    p = [int(v) for v in case[0]]
+    bank_k, gi, k, si = int(case[1]), int(case[2]), int(case[3]), int(case[4])
+    n = len(p)
+    grain, shrink, _kmax = DYADIC_GEOM[gi]
+    R.state(p, case[1:])
+    xyz, rad = _dyadic_geometry(n, bank_k, grain, shrink)
+    off = tuple(sg * 2.0 ** k for sg in DYADIC_SIGNS[si])
+    xyz2 = [tuple(c + d for c, d in zip(pt, off)) for pt in xyz]
+    for pt in xyz2:
+        for c in pt:
+            assert float(np.float32(c)) == c, "harness: translation is not exact in float32"
+    radii = RF.sholl_midgap_radii(p, xyz) if n >= 2 and len({tuple(q) for q in xyz}) == n else [0.5, 1.0, 2.0]
+    chain = not ref.furcations(p)
+    ident = list(range(n))
+    seed = dg("C11-dyadic", case) % (2 ** 32)
+    np.random.seed(seed)
+    q0 = _Quiet()
+    base = observe(q0, build.make_tree(p, xyz=xyz, r=rad), ident, radii, p, chain)
+    np.random.seed(seed)
+    got = observe(_AllowRaise(R, set(base)), build.make_tree(p, xyz=xyz2, r=rad), ident, radii, p, chain)
+    ctx = f"p={p} bank={bank_k} grain={grain} offset={off}"
+    cmax = max(abs(c) for pt in xyz2 for c in pt)
+    for name, (dim, kind, bv) in base.items():
+        if name not in got:
+            continue
+        tv = got[name][2]
+        if kind == "multiset":
+            tv, bv = sorted(tv), sorted(bv)
+        ok = len(tv) == len(bv)
+        if ok:
+            for a, b in zip(tv, bv):
+                if kind in ("angle", "torque"):
+                    if kind == "torque":
+                        a, b = min(a, 180 - a), min(b, 180 - b)
+                    tol = 2 * angle_tol(b) + 1e-3
+                else:
+                    # evaluation in float32/float64 on absolute coordinates: relative rounding 2^-23 per operation on values of size cmax^dim
+                    tol = 1e-5 * max(abs(b), 1e-3) + (64 * EPS32 * max(1.0, abs(b)) if kind == "volume" else 0.0)
+                if not (math.isfinite(a) and abs(a - b) <= tol):
+                    ok = False
+        R.check(ok, "not-invariant:" + name.split("[")[0],
+                lambda: f"{ctx}: {name}: {bv} at the origin, {tv} after an exact translation (|coordinates| up to {cmax})",
+                f"not-invariant:{name.split('[')[0]}:exact-translation")
+    R.outcome(p, k, si, len(got))
+
+
+class _AllowRaise:
+    """Recorder view: an observable that raised on the base tree may raise on the translated one; otherwise raising is a violation."""
+
+    def __init__(self, R, base_names):
+        self.R, self.base = R, base_names
+
+    def impl(self, what, fn, *a, **k):
+        if what in self.base or what in ("extract_feature", "Sholl", "get_branches"):
+            return self.R.impl(what, fn, *a, **k)
+        return self.R.attempt(fn, *a, **k)
+
+
 def spaces(tier, seed):
     bank_k = seed % 4
     mot_hi, ren_hi, sc_hi = (5, 5, 5) if tier == "quick" else (6, 6, 7)
@@ -314,9 +493,36 @@ def spaces(tier, seed):
                     for g in geoms:
                         yield (p, g, "scale", si, combo)
 
+    der_hi = 4 if tier == "quick" else 5
+    dya_hi = 4 if tier == "quick" else 5
+
+    def gen_derived():
+        for p in trees(der_hi):
+            for g in geoms:
+                for how in DERIVE_HOWS:
+                    for sc in (2.0, 0.5):
+                        if sc != 2.0 and not (how.endswith("scale") or "Scale" in how):
+                            continue
+                        yield (p, g, how, sc)
+
+    def gen_dyadic():
+        for p in trees(dya_hi):
+            for gi in (0, 1):
+                for k in DYADIC_SHIFTS:
+                    if k > DYADIC_GEOM[gi][2]:
+                        continue
+                    for si in range(len(DYADIC_SIGNS)):
+                        yield (p, bank_k, gi, k, si)
+
     common = {"bank": bank_k, "geometries": ["bank", "bank with coordinates / 8 and unchanged radii (overlapping and nested spheres)"], "axes": AXES, "angles": ANGLES, "offsets": OFFSETS, "scales": SCALES, "composed_with": COMBO}
     return [
         Space.of("rigid-motions", gen_motion, check_case, bounds={"ST_max_nodes": mot_hi, **common}),
         Space.of("renumberings", gen_renum, check_case, bounds={"ST_max_nodes": ren_hi, "renumberings": "all (n-1)! fixing the root, alone and composed", **common}),
         Space.of("scalings", gen_scale, check_case, bounds={"ST_max_nodes": sc_hi, **common}),
+        Space.of("measured-then-derived", gen_derived, check_derived,
+                 bounds={"ST_max_nodes": der_hi, "derivations": DERIVE_HOWS, "scales": [2.0, 0.5], "offset": OFFSETS[1],
+                         "oracle": "observables of the derived tree == observables of a freshly built tree with bit-identical columns"}),
+        Space.of("exact-translations", gen_dyadic, check_dyadic,
+                 bounds={"ST_max_nodes": dya_hi, "geometries (grain, shrink, max k)": DYADIC_GEOM, "offsets": [f"+-2^{k}" for k in DYADIC_SHIFTS], "sign_patterns": DYADIC_SIGNS,
+                         "note": "dyadic coordinates + power-of-two offsets: the translation is exact in float32, so segment vectors are bit-identical"}),
     ]
